@@ -526,11 +526,39 @@ def evaluate(ctx, tag, cases, session, F, exp):
     t1 = time.time()
     res = ctx.cases(tag, HEADER, items, per_file=60, result_ty="str", fn="check")
     ctx.log(f"{tag}: {len(cases)} cases, implementation {t1 - t0:.1f}s, Coq evaluation {time.time() - t1:.1f}s")
+    # rows right, only the letter case of the column names differs?
+    cand = [(k, respelled_item(c, infos[k])) for k, c in enumerate(cases)
+            if res[k] is not None and len(res[k]) == 8 and res[k][7] == "1" and res[k][5] == "0" and res[k][2] == "0"]
+    cand = [(k, it) for k, it in cand if it is not None]
+    if cand:
+        r2 = ctx.cases(tag + "sp", HEADER, [it for _, it in cand], per_file=60, result_ty="str", fn="check")
+        for (k, _), v2 in zip(cand, r2):
+            infos[k]["spelling_only"] = bool(v2 is not None and len(v2) == 8 and v2[2] == "1")
     return items, infos, res
+
+
+def expected_columns(case: Case):
+    ns = names_of(case.tree, case.spec_tables())
+    return ns + ["count"] if case.post == "groupcount" else ns
+
+
+def respelled_item(case: Case, info):
+    """if collect()'s columns differ from Spark's only in letter case: the same case with the columns re-spelled
+    (to let Coq decide whether the spelling is the ONLY difference)"""
+    got = info.get("got")
+    if not got:
+        return None
+    exp_cols = expected_columns(case)
+    if got["columns"] != exp_cols and [c.lower() for c in got["columns"]] == [c.lower() for c in exp_cols]:
+        return coq_case(case, "None", result_coq(exp_cols, [tuple(r) for r in got["rows"]]))
+    return None
 
 
 def signature(case: Case, v, info):
     t2, im, isp, ms, dom, raised, mraise, specdef = (ch == "1" for ch in v)
+    if info.get("spelling_only"):
+        return "C07/columns-lose-left-spelling:" + ("unionByName-allowMissingColumns" if "unionByNameAllow" in calls_in(case.tree)
+                                                    else "+".join(sorted(set(calls_in(case.tree)))))
     if raised:
         exc = (info["exc"] or "?").split(":")[0]
         if exc == "AttributeError" and "'where'" in (info["exc"] or "") and shares_setop(case.tree):
@@ -822,7 +850,7 @@ def dev_kind(v, info):
     """coarse kind of a deviation: which exception, or a differing result"""
     if v[5] == "1":
         return "raise:" + (info.get("exc") or "?").split(":")[0]
-    return "differs"
+    return "spelling" if info.get("spelling_only") else "differs"
 
 
 def shrink(ctx, case, kind, tag, session, F, exp, rounds=8):
